@@ -94,7 +94,12 @@ func VH_C02_Partition() {
 
 // (SP) SetPayload
 func VH_C02_SetPayload() {
+	// thorough tier: the quick-tier adaptation-field shapes (12 flag sets x lengths {0,1,3} +
+	// capacity fills) with 16 payload lengths instead of 8. The full thorough shape set (32 flag
+	// sets x 6 lengths = 584 shapes) x 16 lengths = 9.4k jobs ran at 125 jobs/min and was abandoned.
+	c03quickShapes = true
 	p, cs, m := c02wf("p")
+	c03quickShapes = false     // a package variable: native replays of other harnesses share the process
 	vrt.Assume(p[3]&0x10 != 0) // carries payload
 	hadAF := p[3]&0x20 != 0
 	cap := 188 - cs
